@@ -199,6 +199,17 @@ func C12(c *core.Ctx) {
 	c12Prepare(c)
 	c12TaxDate(c)
 	c12CodeVsData(c, "C12-R6", tables)
+	c.Rule("C12-R8", "every taxable line goes through the rate lookup — none is passed over before its combos are prepared (shared with C02-R8)", 1)
+	{
+		sub := core.NewCtx("C02", c.Tier, c.Seed, c.P, c.VerifDir)
+		sub.Quiet = true
+		c02EveryLineMapped(sub)
+		for _, o := range sub.Obligations() {
+			if o.Rule == "C02-R8" {
+				c.ObAt("C12-R8", o.Key, o.Pos, o.OK, o.Msg)
+			}
+		}
+	}
 	_ = p
 }
 
